@@ -151,7 +151,11 @@ class PyList(Value):
             a, b = (other, self) if refl else (self, other)
             if a.seq is None and b.seq is None:
                 return PyList(a.items + b.items)
-            return PyList(None, seq=a.as_seq().concat(b.as_seq()))
+            sa, sb = a.as_seq(), b.as_seq()
+            res = PyList(None, seq=sa.concat(sb))
+            if interp.theory is not None:
+                interp.theory.after_list_concat(interp, res, sa, sb)
+            return res
         if op == 'Mult' and is_intlike(other):
             if self.seq is None and concrete(other) is not None:
                 return PyList(self.items * concrete(other))
